@@ -82,6 +82,10 @@ def _is_name_pure(e: ast.AST) -> bool:
         return True
     if isinstance(e, ast.Tuple):
         return all(_is_name_pure(x) for x in e.elts)
+    if isinstance(e, ast.Compare) and all(isinstance(o, (ast.Is, ast.IsNot)) for o in e.ops):
+        return all(_is_name_pure(x) for x in [e.left] + e.comparators)  # identity tests run no user code
+    if isinstance(e, ast.UnaryOp) and isinstance(e.op, ast.Not):
+        return isinstance(e.operand, ast.Compare) and _is_name_pure(e.operand)
     return False
 
 
@@ -272,6 +276,53 @@ def defs_to_lambdas(fn: ast.AST) -> None:
                 seq[i] = ast.copy_location(ast.Assign(targets=[ast.Name(id=st.name, ctx=ast.Store())], value=lam), st)
 
 
+def _is_bool(t: ast.AST) -> bool:
+    """Is the value of this expression certainly a ``bool``?"""
+    if isinstance(t, ast.Compare):
+        return all(isinstance(o, (ast.In, ast.NotIn, ast.Is, ast.IsNot)) for o in t.ops) or all(isinstance(x, ast.Constant) or (isinstance(x, ast.Call) and isinstance(x.func, ast.Name) and x.func.id == 'len') for x in [t.left] + t.comparators) or (len(t.ops) == 1 and isinstance(t.ops[0], (ast.Eq, ast.NotEq)) and _is_bool(t.left) and _is_bool(t.comparators[0]))
+    if isinstance(t, ast.UnaryOp) and isinstance(t.op, ast.Not):
+        return True
+    if isinstance(t, ast.Call) and isinstance(t.func, ast.Name) and t.func.id in ('isinstance', 'issubclass', 'callable', 'hasattr', 'bool', 'all', 'any'):
+        return True
+    if isinstance(t, ast.BoolOp):
+        return all(_is_bool(v) for v in t.values)
+    if isinstance(t, ast.Constant) and isinstance(t.value, bool):
+        return True
+    if isinstance(t, ast.BinOp) and isinstance(t.op, ast.BitXor):
+        return _is_bool(t.left) and _is_bool(t.right)
+    return False
+
+
+def boolean_algebra(fn: ast.AST) -> None:
+    """``a ^ b`` on booleans is ``a != b``; in ``a == b`` / ``a != b`` on booleans a negated operand flips the operator."""
+    class X(ast.NodeTransformer):
+        def visit_BinOp(self, n):  # noqa: N802
+            self.generic_visit(n)
+            if isinstance(n.op, ast.BitXor) and _is_bool(n.left) and _is_bool(n.right):
+                return self.visit_Compare(ast.copy_location(ast.Compare(left=n.left, ops=[ast.NotEq()], comparators=[n.right]), n))
+            return n
+
+        def visit_Compare(self, n):  # noqa: N802
+            self.generic_visit(n)
+            if len(n.ops) == 1 and isinstance(n.ops[0], (ast.Eq, ast.NotEq)) and _is_bool(n.left) and _is_bool(n.comparators[0]):
+                flips = 0
+                sides = []
+                for side in (n.left, n.comparators[0]):
+                    pos = nnf(side)
+                    if isinstance(pos, ast.UnaryOp) and isinstance(pos.op, ast.Not):
+                        pos, flips = pos.operand, flips + 1
+                    elif isinstance(pos, ast.Compare) and len(pos.ops) == 1 and type(pos.ops[0]) in _POS:
+                        pos, flips = nnf(pos, False), flips + 1
+                    sides.append(pos)
+                op = type(n.ops[0])
+                if flips % 2:
+                    op = ast.NotEq if op is ast.Eq else ast.Eq
+                return ast.copy_location(ast.Compare(left=sides[0], ops=[op()], comparators=[sides[1]]), n)
+            return n
+
+    X().visit(fn)
+
+
 def _negate(e: ast.AST) -> ast.AST:
     return ast.UnaryOp(op=ast.Not(), operand=e)
 
@@ -284,6 +335,8 @@ def nnf(test: ast.AST, pol: bool = True) -> ast.AST:
     in a boolean *test* position (their truth value is all that is used)."""
     if isinstance(test, ast.UnaryOp) and isinstance(test.op, ast.Not):
         return nnf(test.operand, not pol)
+    if isinstance(test, ast.Call) and isinstance(test.func, ast.Name) and test.func.id == 'bool' and len(test.args) == 1 and not test.keywords and not isinstance(test.args[0], ast.Starred):
+        return nnf(test.args[0], pol)  # truth value of bool(x) is the truth value of x
     if isinstance(test, ast.BoolOp):
         op = type(test.op)() if pol else (ast.Or() if isinstance(test.op, ast.And) else ast.And())
         values = []
@@ -351,7 +404,9 @@ def canonical_tests(fn: ast.AST) -> None:
 
     T().visit(fn)
 
-    def is_bool(t: ast.AST) -> bool:
+    is_bool = _is_bool
+
+    def _unused(t: ast.AST) -> bool:
         if isinstance(t, ast.Compare):
             return all(isinstance(o, (ast.In, ast.NotIn, ast.Is, ast.IsNot)) for o in t.ops) or all(isinstance(x, ast.Constant) or (isinstance(x, ast.Call) and isinstance(x.func, ast.Name) and x.func.id == 'len') for x in [t.left] + t.comparators)
         if isinstance(t, ast.UnaryOp) and isinstance(t.op, ast.Not):
@@ -390,7 +445,7 @@ def canonical_tests(fn: ast.AST) -> None:
             self.generic_visit(n)
             # beta reduction: (lambda p, q: E)(a, b) with effect-free arguments
             f = n.func
-            if isinstance(f, ast.Lambda) and not n.keywords and not f.args.vararg and not f.args.kwarg and not f.args.kwonlyargs and not f.args.defaults and len(f.args.args) == len(n.args) and all(_is_chain(a) for a in n.args):
+            if isinstance(f, ast.Lambda) and not n.keywords and not f.args.vararg and not f.args.kwarg and not f.args.kwonlyargs and not f.args.defaults and len(f.args.args) == len(n.args) and all(_is_chain(a) and not _computing_chain(a) for a in n.args):
                 ps = [a.arg for a in f.args.args]
                 inner_bound = _inner_bound(f.body)
                 arg_names = {x for a in n.args for x in _names(a)}
@@ -432,6 +487,15 @@ def flatten_conditionals(fn: ast.AST) -> None:
                         st.orelse = seq[i + 1:]
                         del seq[i + 1:]
                         changed = True
+                    # one arm leaves, the other falls through to the rest of the block: the rest belongs to that arm
+                    if st.orelse and i + 1 < len(seq) and _terminates(st.body) and not _terminates(st.orelse):
+                        st.orelse = st.orelse + seq[i + 1:]
+                        del seq[i + 1:]
+                        changed = True
+                    elif st.orelse and i + 1 < len(seq) and _terminates(st.orelse) and not _terminates(st.body):
+                        st.body = st.body + seq[i + 1:]
+                        del seq[i + 1:]
+                        changed = True
                     # nested ifs without else -> conjunction
                     if not st.orelse and len(st.body) == 1 and isinstance(st.body[0], ast.If) and not st.body[0].orelse:
                         inner = st.body[0]
@@ -466,7 +530,7 @@ def flatten_conditionals(fn: ast.AST) -> None:
                             seq[i] = ast.copy_location(ast.Return(value=ast.IfExp(test=st.test, body=av, orelse=bv)), st)
                             changed = True
                             continue
-                        if isinstance(a, ast.Assign) and isinstance(b, ast.Assign) and len(a.targets) == 1 and len(b.targets) == 1 and isinstance(a.targets[0], ast.Name) and ast.dump(a.targets[0]) == ast.dump(b.targets[0]):
+                        if isinstance(a, ast.Assign) and isinstance(b, ast.Assign) and len(a.targets) == 1 and len(b.targets) == 1 and isinstance(a.targets[0], (ast.Name, ast.Attribute)) and not _has_call(a.targets[0]) and ast.dump(a.targets[0]) == ast.dump(b.targets[0]):
                             seq[i] = ast.copy_location(ast.Assign(targets=[a.targets[0]], value=ast.IfExp(test=st.test, body=a.value, orelse=b.value)), st)
                             changed = True
                             continue
@@ -477,6 +541,21 @@ def flatten_conditionals(fn: ast.AST) -> None:
                                 seq[i] = ast.copy_location(ast.Expr(value=call), st)
                                 changed = True
                                 continue
+                    # ``if c: A`` ; ``return R`` (end of block)  ->  ``if c: A; return R else: return R``
+                    if st.orelse and not _terminates(st.body) and not _terminates(st.orelse) and i + 2 == len(seq) and isinstance(seq[i + 1], (ast.Return, ast.Raise)) and not any(isinstance(x, (ast.For, ast.While, ast.With)) for b in st.body + st.orelse for x in ast.walk(b)) and len(st.body) <= 6 and len(st.orelse) <= 6 and not (len(st.body) == 1 and len(st.orelse) == 1 and isinstance(st.body[0], ast.Assign) and isinstance(st.orelse[0], ast.Assign)):
+                        tail = seq[i + 1]
+                        st.body = st.body + [_clone(tail)]
+                        st.orelse = st.orelse + [tail]
+                        del seq[i + 1]
+                        changed = True
+                        continue
+                    if not st.orelse and not _terminates(st.body) and i + 2 == len(seq) and isinstance(seq[i + 1], (ast.Return, ast.Raise)) and not any(isinstance(x, (ast.For, ast.While, ast.Try, ast.With)) for b in st.body for x in ast.walk(b)) and len(st.body) <= 4:
+                        tail = seq[i + 1]
+                        st.body = st.body + [_clone(tail)]
+                        st.orelse = [tail]
+                        del seq[i + 1]
+                        changed = True
+                        continue
                 i += 1
         # a function that ends in ``if c: return A`` falls off the end otherwise: explicit else None is NOT added (kept as is)
         if changed:
@@ -544,6 +623,42 @@ def loops_to_comprehensions(fn: ast.AST) -> None:
                     continue
                 seq[i - 1:i + 1] = [ast.copy_location(ast.Assign(targets=[init.targets[0]], value=comp), init)]
                 i -= 1
+    # ``for T in IT: if C: return True`` ; ``return False``  ->  ``return any(C for T in IT)``  (and the all() dual)
+    for seq in list(_blocks(fn)):
+        for i in range(len(seq) - 1):
+            loop, ret = seq[i], seq[i + 1]
+            if not (isinstance(loop, ast.For) and not loop.orelse and len(loop.body) == 1 and isinstance(loop.body[0], ast.If) and not loop.body[0].orelse and len(loop.body[0].body) == 1 and i + 2 == len(seq)):
+                continue
+            inner = loop.body[0].body[0]
+            if not (isinstance(inner, ast.Return) and isinstance(inner.value, ast.Constant) and isinstance(inner.value.value, bool) and isinstance(ret, ast.Return) and isinstance(ret.value, ast.Constant) and isinstance(ret.value.value, bool) and inner.value.value != ret.value.value):
+                continue
+            loop_vars = {x.id for x in ast.walk(loop.target) if isinstance(x, ast.Name)}
+            bound_elsewhere = {x.id for x in ast.walk(fn) if isinstance(x, ast.Name) and isinstance(x.ctx, ast.Store) and not any(x is y for y in ast.walk(loop))}
+            if loop_vars & bound_elsewhere or loop_vars & _params(fn):
+                continue
+            test = loop.body[0].test
+            if inner.value.value is True:
+                call = ast.Call(func=ast.Name(id='any', ctx=ast.Load()), args=[ast.GeneratorExp(elt=test, generators=[ast.comprehension(target=loop.target, iter=loop.iter, ifs=[], is_async=0)])], keywords=[])
+            else:
+                call = ast.Call(func=ast.Name(id='all', ctx=ast.Load()), args=[ast.GeneratorExp(elt=nnf(test, False), generators=[ast.comprehension(target=loop.target, iter=loop.iter, ifs=[], is_async=0)])], keywords=[])
+            seq[i:i + 2] = [ast.copy_location(ast.Return(value=call), loop)]
+            break
+    # ``for x in (y for y in IT if C)``  ->  ``for x in IT if C[x/y]`` (the inner generator hands its variable through)
+    for comp in [n for n in ast.walk(fn) if isinstance(n, (ast.ListComp, ast.SetComp, ast.GeneratorExp, ast.DictComp))]:
+        g = comp.generators[0]
+        it = g.iter
+        if isinstance(it, (ast.GeneratorExp, ast.ListComp)) and len(it.generators) == 1 and isinstance(it.elt, ast.Name) and isinstance(it.generators[0].target, ast.Name) and it.elt.id == it.generators[0].target.id and isinstance(g.target, ast.Name) and not it.generators[0].is_async:
+            inner_var, outer_var = it.elt.id, g.target.id
+            if outer_var in _names(it.generators[0].iter) or any(outer_var in _names(c) for c in it.generators[0].ifs):
+                continue
+            ifs = []
+            for c in it.generators[0].ifs:
+                for x in ast.walk(c):
+                    if isinstance(x, ast.Name) and x.id == inner_var:
+                        x.id = outer_var
+                ifs.append(c)
+            g.iter = it.generators[0].iter
+            g.ifs = ifs + g.ifs
     # tuple([...]) / set([...]) / any([...]) ... consume an iterable: a list display and a generator are the same there
     consumers = {'tuple', 'set', 'frozenset', 'list', 'sorted', 'any', 'all', 'sum', 'min', 'max', 'dict'}
 
@@ -552,6 +667,13 @@ def loops_to_comprehensions(fn: ast.AST) -> None:
             self.generic_visit(n)
             if isinstance(n.func, ast.Name) and n.func.id in consumers and len(n.args) == 1 and isinstance(n.args[0], ast.ListComp) and not _has_call_in_comp(n.args[0]):
                 n.args[0] = ast.copy_location(ast.GeneratorExp(elt=n.args[0].elt, generators=n.args[0].generators), n.args[0])
+            spliced = []
+            for a in n.args:
+                if isinstance(a, ast.Starred) and isinstance(a.value, (ast.List, ast.Tuple)) and not any(isinstance(e, ast.Starred) for e in a.value.elts):
+                    spliced.extend(a.value.elts)
+                else:
+                    spliced.append(a)
+            n.args = spliced
             for k, a in enumerate(n.args):
                 if isinstance(a, ast.Starred) and isinstance(a.value, ast.ListComp):
                     a.value = ast.copy_location(ast.GeneratorExp(elt=a.value.elt, generators=a.value.generators), a.value)
@@ -562,6 +684,16 @@ def loops_to_comprehensions(fn: ast.AST) -> None:
             return n
 
     T().visit(fn)
+    # ``(*a, *[x])`` is ``(*a, x)``
+    for n in ast.walk(fn):
+        if isinstance(n, (ast.Tuple, ast.List, ast.Set)) and isinstance(getattr(n, 'ctx', ast.Load()), ast.Load):
+            spliced = []
+            for e in n.elts:
+                if isinstance(e, ast.Starred) and isinstance(e.value, (ast.List, ast.Tuple)) and not any(isinstance(x, ast.Starred) for x in e.value.elts):
+                    spliced.extend(e.value.elts)
+                else:
+                    spliced.append(e)
+            n.elts = spliced
 
 
 def _has_call_in_comp(c: ast.AST) -> bool:
@@ -661,16 +793,28 @@ def inline_temporaries(fn: ast.AST, only: typing.Optional[set] = None, sigs: typ
             if any(isinstance(n, (ast.Global, ast.Nonlocal)) and x in n.names for n in ast.walk(fn)):
                 continue
             ok = False
-            if not is_stable:
+            # a value whose evaluation can raise (attribute / item reads, calls) never moves into a ``try`` it stood outside of
+            def try_depth(node: ast.AST) -> list:
+                out = []
+                cur = node
+                while id(cur) in parents:
+                    par = parents[id(cur)]
+                    if isinstance(par, ast.Try) and any(cur is b for b in par.body):
+                        out.append(id(par))
+                    cur = par
+                return out
+
+            crosses_try = not _is_name_pure(v) and not isinstance(v, ast.Lambda) and any(try_depth(u) != try_depth(st) for u in uses)
+            if not is_stable or crosses_try:
                 pass
             elif _is_name_pure(v):
                 ok = True
             elif isinstance(v, ast.Lambda):
                 # creating a function object has no effect; its free names must be stable (checked above)
                 ok = True
-            elif sigs is not None and sigs.frozen_chain(v):
+            elif sigs is not None and (sigs.frozen_chain(v) or sigs.frozen_item(v)):
                 ok = True
-            elif _is_chain(v):
+            elif _is_chain(v) and not _computing_chain(v):
                 base = v
                 while isinstance(base, (ast.Attribute, ast.Subscript)):
                     base = base.value
@@ -692,21 +836,35 @@ def inline_temporaries(fn: ast.AST, only: typing.Optional[set] = None, sigs: typ
                             ok = False
                         if isinstance(n, (ast.Yield, ast.YieldFrom, ast.Await)):
                             ok = False
-            if not ok and len(uses) == 1 and later and not _is_name_pure(v):
-                use = uses[0]
-                nxt = later[0]
-                heads = _header(nxt)
-                root = next((h for h in heads if any(n is use for n in ast.walk(h))), None)
-                if root is not None and not any(isinstance(n, (ast.Yield, ast.YieldFrom, ast.Await, ast.NamedExpr)) for n in ast.walk(v)):
-                    cond = _conditional_position(root, use)
-                    if cond and _first_iter_of(root, use):
-                        cond = False
-                    if not cond:
-                        order: list = []
-                        _postorder(root, order)
-                        pos = next(k for k, n in enumerate(order) if n is use)
-                        earlier_calls = [n for n in order[:pos] if isinstance(n, (ast.Call, ast.Subscript, ast.Attribute, ast.BinOp, ast.Compare)) and _has_effect(n)]
-                        ok = not earlier_calls
+            def adjacent(use: ast.AST) -> bool:
+                """``use`` is evaluated by the very next statement, unconditionally, before any other call of its header."""
+                if not later:
+                    return False
+                root = next((h for h in _header(later[0]) if any(n is use for n in ast.walk(h))), None)
+                if root is None or any(isinstance(n, (ast.Yield, ast.YieldFrom, ast.Await, ast.NamedExpr)) for n in ast.walk(v)):
+                    return False
+                cond = _conditional_position(root, use)
+                if cond and _first_iter_of(root, use):
+                    cond = False
+                if cond:
+                    return False
+                if _quiet(v):
+                    return True  # a pure computation commutes with whatever the header evaluates before it
+                order: list = []
+                _postorder(root, order)
+                pos = next(k for k, n in enumerate(order) if n is use)
+                return not [n for n in order[:pos] if _has_effect(n)]
+
+            if ok and any(isinstance(n, ast.Subscript) for n in ast.walk(v)):
+                # an item read may raise (KeyError is ordinary control flow): its *first* evaluation must stay where it was -
+                # in the next statement's header; later uses merely re-read what was found
+                order_all: list = []
+                for s_ in later:
+                    _postorder(s_, order_all)
+                first = next((n for n in order_all if any(n is u for u in uses)), None)
+                ok = first is not None and adjacent(first)
+            if not ok and len(uses) == 1 and not _is_name_pure(v) and not crosses_try:
+                ok = adjacent(uses[0])
             if not ok:
                 continue
 
@@ -728,11 +886,44 @@ def inline_temporaries(fn: ast.AST, only: typing.Optional[set] = None, sigs: typ
 _PURE_BUILTINS = {'super', 'isinstance', 'issubclass', 'len', 'type', 'id', 'callable', 'range'}
 
 
+_ACTIVE_SIGS: typing.Optional['SignatureIndex'] = None
+
+
 def _has_effect(n: ast.AST) -> bool:
-    """May evaluating this node run arbitrary code?  Calls do (a handful of builtins aside); attribute reads, subscripts,
+    """May evaluating this node run arbitrary code?  Calls do (a handful of builtins aside), and so does reading an
+    attribute that some class of the program implements as a computing property; plain attribute reads, subscripts and
     operators on plain values are treated as effect free for *ordering* purposes."""
     if isinstance(n, ast.Call):
         return not (isinstance(n.func, ast.Name) and n.func.id in _PURE_BUILTINS)
+    if isinstance(n, ast.Attribute) and isinstance(n.ctx, ast.Load):
+        return _ACTIVE_SIGS is None or n.attr in _ACTIVE_SIGS.effectful_properties
+    return False
+
+
+_QUIET_CALLS = {'dict', 'tuple', 'list', 'set', 'frozenset', 'sorted', 'str', 'int', 'float', 'bool', 'len', 'repr', 'min', 'max', 'sum', 'any', 'all', 'zip', 'enumerate', 'range', 'isinstance', 'issubclass', 'type', 'id', 'reversed', 'json.dumps', 'abs', 'round'}
+
+
+def _quiet(e: ast.AST) -> bool:
+    """A computation over plain values: every call is a side-effect free builtin, no effectful property is read."""
+    for n in ast.walk(e):
+        if isinstance(n, ast.Call):
+            f = n.func
+            name = f.id if isinstance(f, ast.Name) else (f'{f.value.id}.{f.attr}' if isinstance(f, ast.Attribute) and isinstance(f.value, ast.Name) else None)
+            if name not in _QUIET_CALLS:
+                return False
+        elif isinstance(n, (ast.Await, ast.Yield, ast.YieldFrom, ast.NamedExpr, ast.Lambda)):
+            return False
+        elif _has_effect(n):
+            return False
+    return True
+
+
+def _computing_chain(e: ast.AST) -> bool:
+    """Does the attribute chain read a (non-transparent) property - i.e. run code?  Unknown without the program index."""
+    while isinstance(e, (ast.Attribute, ast.Subscript)):
+        if isinstance(e, ast.Attribute) and (_ACTIVE_SIGS is None or e.attr in _ACTIVE_SIGS.effectful_properties):
+            return True
+        e = e.value
     return False
 
 
@@ -829,17 +1020,66 @@ def alpha(fn: ast.AST) -> None:
             for k, name in enumerate(core.own_locals(n)):
                 if not name.startswith('_v'):
                     core._rename_local(n, name, f'_w{k}')  # pylint: disable=protected-access
-    # lambda parameters
-    for n in ast.walk(fn):
-        if isinstance(n, ast.Lambda) and not n.args.vararg and not n.args.kwarg and not n.args.kwonlyargs:
-            ren = {a.arg: f'_l{k}' for k, a in enumerate(n.args.args)}
-            inner = {a.arg for x in ast.walk(n.body) if isinstance(x, ast.Lambda) for a in x.args.args}
-            if ren and not (set(ren) & inner):
-                for a in n.args.args:
-                    a.arg = ren[a.arg]
-                for x in ast.walk(n.body):
-                    if isinstance(x, ast.Name) and x.id in ren:
-                        x.id = ren[x.id]
+    # parameters of nested functions that are only ever called positionally from within fn
+    for n in list(ast.walk(fn)):
+        if n is fn or not isinstance(n, FUNC) or n.args.vararg and False:
+            continue
+        calls_kw = any(isinstance(c, ast.Call) and isinstance(c.func, ast.Name) and c.func.id == n.name and c.keywords for c in ast.walk(fn))
+        if calls_kw or n.args.kwonlyargs or n.args.posonlyargs:
+            continue
+        for k, a in enumerate(list(n.args.args)):
+            if a.arg in ('self', 'cls') or a.arg.startswith('_p'):
+                continue
+            new = f'_p{k}'
+            if any(isinstance(x, ast.Name) and x.id == new for x in ast.walk(n)):
+                continue
+            old_name = a.arg
+            a.arg = new
+
+            def visit(m: ast.AST) -> None:
+                for c in ast.iter_child_nodes(m):
+                    if isinstance(c, FUNC + (ast.Lambda,)) and old_name in _params(c):
+                        continue
+                    if isinstance(c, ast.Name) and c.id == old_name:
+                        c.id = new
+                    visit(c)
+
+            for st in n.body:
+                if isinstance(st, ast.Name) and st.id == old_name:
+                    st.id = new
+                visit(st)
+    # lambda parameters: named by nesting depth and position, inner lambdas shadow properly
+    def rename_lambda(lam: ast.Lambda, depth: int) -> None:
+        simple = not lam.args.vararg and not lam.args.kwarg and not lam.args.kwonlyargs and not lam.args.posonlyargs
+        ren = {a.arg: f'_l{depth}_{k}' for k, a in enumerate(lam.args.args)} if simple else {}
+        for a in lam.args.args:
+            a.arg = ren.get(a.arg, a.arg)
+
+        def visit(n: ast.AST, active: dict) -> None:
+            if isinstance(n, ast.Lambda):
+                shadow = {a.arg for a in ast.walk(n.args) if isinstance(a, ast.arg)}
+                for d in list(n.args.defaults) + [k for k in n.args.kw_defaults if k is not None]:
+                    visit(d, active)
+                rest = {k: v for k, v in active.items() if k not in shadow}
+                visit(n.body, rest)
+                return
+            if isinstance(n, ast.Name) and n.id in active:
+                n.id = active[n.id]
+            for c in ast.iter_child_nodes(n):
+                visit(c, active)
+
+        if ren:
+            visit(lam.body, ren)
+
+    def walk_lambdas(n: ast.AST, depth: int) -> None:
+        for c in ast.iter_child_nodes(n):
+            if isinstance(c, ast.Lambda):
+                rename_lambda(c, depth)
+                walk_lambdas(c, depth + 1)
+            else:
+                walk_lambdas(c, depth)
+
+    walk_lambdas(fn, 0)
 
 
 def inline_nested_helpers(fn: ast.AST) -> None:
@@ -857,6 +1097,110 @@ def inline_nested_helpers(fn: ast.AST) -> None:
         core.inline_helpers(fn, defs, lambda q, n: True)
 
 
+def unfold_for_else(fn: ast.AST) -> None:
+    """``for ..: .. break .. else: <exits>`` followed by a tail T that exits: the tail runs only after a ``break``, so each
+    ``break`` of the loop becomes T and the else arm follows the loop (search loops written with for/else/break vs early
+    return)."""
+    def own_breaks(loop: ast.AST) -> list:
+        out = []
+
+        def visit(n: ast.AST) -> None:
+            for c in ast.iter_child_nodes(n):
+                if isinstance(c, (ast.For, ast.AsyncFor, ast.While)) or isinstance(c, FUNC + (ast.Lambda, ast.ClassDef)):
+                    if isinstance(c, (ast.For, ast.AsyncFor, ast.While)):
+                        for st in c.orelse:
+                            visit_stmt(st)
+                    continue
+                if isinstance(c, ast.Break):
+                    out.append(c)
+                visit(c)
+
+        def visit_stmt(st: ast.AST) -> None:
+            if isinstance(st, ast.Break):
+                out.append(st)
+            visit(st)
+
+        for st in loop.body:
+            visit_stmt(st)
+        return out
+
+    for seq in list(_blocks(fn)):
+        for i, st in enumerate(seq):
+            if not (isinstance(st, (ast.For, ast.While)) and st.orelse and _terminates(st.orelse)):
+                continue
+            tail = seq[i + 1:]
+            if not tail or not _terminates(tail) or len(tail) > 3:
+                continue
+            if any(isinstance(x, FUNC + (ast.ClassDef,)) for t in tail for x in ast.walk(t)):
+                continue
+            breaks = own_breaks(st)
+            if not breaks:
+                continue
+            # the tail may read the loop variables: after a break they hold the same values inside the body
+            for owner in ast.walk(st):
+                for f in _BLOCKS:
+                    blk = getattr(owner, f, None)
+                    if isinstance(blk, list):
+                        k = 0
+                        while k < len(blk):
+                            if any(blk[k] is b for b in breaks):
+                                blk[k:k + 1] = [_clone(t) for t in tail]
+                                k += len(tail)
+                            else:
+                                k += 1
+            orelse, st.orelse = st.orelse, []
+            seq[i + 1:] = orelse
+            return unfold_for_else(fn)
+
+
+def unfold_generator_loops(fn: ast.AST) -> None:
+    """``for T in (E for a in A for b in B if c): body``  ->  ``for a in A: for b in B: if c: T = E; body`` (a generator is
+    advanced in lock-step with the loop that consumes it)."""
+    for loop in [n for n in ast.walk(fn) if isinstance(n, ast.For)]:
+        it = loop.iter
+        if not isinstance(it, ast.GeneratorExp) or loop.orelse or any(g.is_async for g in it.generators):
+            continue
+        if any(isinstance(x, (ast.Break, ast.Continue)) for st in loop.body for x in ast.walk(st)):
+            continue  # break/continue would bind to the innermost new loop
+        tgt, elt = loop.target, it.elt
+        if isinstance(tgt, ast.Tuple) and isinstance(elt, ast.Tuple) and len(tgt.elts) == len(elt.elts) and all(isinstance(t, ast.Name) for t in tgt.elts) and not any(isinstance(e, ast.Starred) for e in elt.elts):
+            binds = [ast.Assign(targets=[ast.Name(id=t.id, ctx=ast.Store())], value=e) for t, e in zip(tgt.elts, elt.elts)]
+            # simultaneous binding: no target may be read by a later element
+            if any(t.id in _names(e) for k, t in enumerate(tgt.elts) for e in elt.elts[k + 1:]):
+                continue
+        elif isinstance(tgt, ast.Name):
+            binds = [ast.Assign(targets=[ast.Name(id=tgt.id, ctx=ast.Store())], value=elt)]
+        else:
+            continue
+        gen_vars = {x.id for g in it.generators for x in ast.walk(g.target) if isinstance(x, ast.Name)}
+        if any(isinstance(x, (ast.Lambda, ast.ListComp, ast.SetComp, ast.DictComp, ast.GeneratorExp)) for g in it.generators for c in g.ifs for x in ast.walk(c)) or any(isinstance(x, (ast.Lambda, ast.ListComp, ast.SetComp, ast.DictComp, ast.GeneratorExp)) for x in ast.walk(elt)):
+            continue
+        # the generator's variables are private to it: give them names nothing else in the function uses
+        taken = {x.id for x in ast.walk(fn) if isinstance(x, ast.Name)} | _params(fn)
+        first_iter_nodes = {id(x) for x in ast.walk(it.generators[0].iter)}
+        for var in sorted(gen_vars):
+            new_name = var
+            n_ = 0
+            while new_name in taken:
+                n_ += 1
+                new_name = f'{var}__g{n_}'
+            others_use = any(isinstance(x, ast.Name) and x.id == var and not any(x is y for y in ast.walk(it)) for x in ast.walk(fn)) or var in _params(fn)
+            if not others_use:
+                continue
+            taken.add(new_name)
+            for x in ast.walk(it):
+                if isinstance(x, ast.Name) and x.id == var and id(x) not in first_iter_nodes:
+                    x.id = new_name
+        inner: list = binds + loop.body
+        for g in reversed(it.generators):
+            for c in reversed(g.ifs):
+                inner = [ast.If(test=c, body=inner, orelse=[])]
+            inner = [ast.For(target=g.target, iter=g.iter, body=inner, orelse=[], lineno=loop.lineno, col_offset=0)]
+        new = inner[0]
+        loop.target, loop.iter, loop.body = new.target, new.iter, new.body
+        ast.fix_missing_locations(loop)
+
+
 def sink_returns(fn: ast.AST) -> None:
     """``if c: x = A else: x = B`` / ``try: x = A except E: x = B`` directly followed by ``return x`` (x a local read nowhere
     else) is ``... return A ... return B``: the single exit through a temporary is undone."""
@@ -866,10 +1210,31 @@ def sink_returns(fn: ast.AST) -> None:
         while i + 1 < len(seq):
             st, ret = seq[i], seq[i + 1]
             i += 1
+            if isinstance(ret, ast.Return) and isinstance(ret.value, ast.Tuple) and _is_name_pure(ret.value) and isinstance(st, ast.Try) and not st.finalbody and not st.orelse and st.handlers and all(_terminates(h.body) for h in st.handlers) and st.body and isinstance(st.body[-1], ast.Assign) and len(st.body[-1].targets) == 1 and isinstance(st.body[-1].targets[0], ast.Name):
+                # ``try: x = E except ..: <leaves>`` ; ``return (x, y)``: building a tuple of names cannot raise
+                x = st.body[-1].targets[0].id
+                hits = [n for n in ast.walk(ret.value) if isinstance(n, ast.Name) and n.id == x]
+                others = [n for n in ast.walk(fn) if isinstance(n, ast.Name) and n.id == x and n is not st.body[-1].targets[0] and not any(n is h for h in hits)]
+                first = next((e for e in ret.value.elts if isinstance(e, ast.Name)), None)
+                if len(hits) == 1 and not others and x not in params and first is hits[0]:
+                    value = st.body[-1].value
+                    ret.value.elts = [value if e is hits[0] else e for e in ret.value.elts]
+                    st.body[-1] = ast.copy_location(ast.Return(value=ret.value), st.body[-1])
+                    del seq[i]
+                    i -= 1
+                continue
             if not (isinstance(ret, ast.Return) and isinstance(ret.value, ast.Name)):
                 continue
             x = ret.value.id
             if x in params:
+                continue
+            if isinstance(st, ast.Try) and not st.finalbody and not st.orelse and st.handlers and all(_terminates(h.body) for h in st.handlers) and st.body and isinstance(st.body[-1], ast.Assign) and len(st.body[-1].targets) == 1 and isinstance(st.body[-1].targets[0], ast.Name) and st.body[-1].targets[0].id == x:
+                # every handler leaves: the return after the try runs only when the body completed
+                others = [n for n in ast.walk(fn) if isinstance(n, ast.Name) and n.id == x and n is not st.body[-1].targets[0] and n is not ret.value]
+                if not others:
+                    st.body[-1] = ast.copy_location(ast.Return(value=st.body[-1].value), st.body[-1])
+                    del seq[i]
+                    i -= 1
                 continue
             if isinstance(st, ast.If) and st.orelse:
                 arms = [st.body, st.orelse]
@@ -914,6 +1279,124 @@ def split_rebound_parameters(fn: ast.AST) -> None:
             for n in ast.walk(st):
                 if isinstance(n, ast.Name) and n.id == p:
                     n.id = new
+
+
+def _pure_value(e: ast.AST) -> bool:
+    ok = (ast.Name, ast.Constant, ast.Attribute, ast.Subscript, ast.BinOp, ast.UnaryOp, ast.Compare, ast.BoolOp, ast.IfExp, ast.List, ast.Tuple, ast.Set, ast.Dict, ast.Load, ast.operator, ast.unaryop, ast.cmpop, ast.boolop, ast.expr_context, ast.Starred, ast.JoinedStr, ast.FormattedValue, ast.Slice)
+    return all(isinstance(x, ok) for x in ast.walk(e)) and not any(_has_effect(x) for x in ast.walk(e))
+
+
+def sort_independent_assignments(fn: ast.AST) -> None:
+    """Consecutive ``name = <call-free expression>`` statements none of which reads another's target are put into one
+    canonical order (they commute)."""
+    params = _params(fn)
+
+    def key(st: ast.Assign) -> str:
+        c = ast.parse(ast.unparse(st.value), mode='eval').body
+        for x in ast.walk(c):
+            if isinstance(x, ast.Name) and x.id not in params:
+                x.id = '_'
+        return ast.dump(c)
+
+    for seq in list(_blocks(fn)):
+        i = 0
+        while i < len(seq):
+            j = i
+            while j < len(seq) and isinstance(seq[j], ast.Assign) and len(seq[j].targets) == 1 and isinstance(seq[j].targets[0], ast.Name) and _pure_value(seq[j].value):
+                j += 1
+            run = seq[i:j]
+            if len(run) > 1:
+                targets = [st.targets[0].id for st in run]
+                reads = [_names(st.value) for st in run]
+                if len(set(targets)) == len(targets) and not any(t in r for k, t in enumerate(targets) for m, r in enumerate(reads) if m != k) and not any(t in reads[k] for k, t in enumerate(targets)):
+                    seq[i:j] = sorted(run, key=key)
+            i = max(j, i + 1)
+
+
+def split_versions(fn: ast.AST) -> None:
+    """A variable whose every binding is an unconditional top-level statement of the function (``kwargs = dict(kwargs)``,
+    ``x, kwargs = f(kwargs)``) is a sequence of single-assignment variables: each binding starts a new name."""
+    params = _params(fn)
+    nested_scopes = [n for n in ast.walk(fn) if n is not fn and isinstance(n, FUNC + (ast.Lambda, ast.ListComp, ast.SetComp, ast.DictComp, ast.GeneratorExp, ast.ClassDef))]
+    captured = set()
+    for sc in nested_scopes:
+        captured |= _names(sc)
+    stores: dict = {}
+    for n in ast.walk(fn):
+        if isinstance(n, ast.Name) and isinstance(n.ctx, (ast.Store, ast.Del)):
+            stores.setdefault(n.id, []).append(n)
+    for name, nodes in sorted(stores.items()):
+        if name in captured or any(isinstance(n.ctx, ast.Del) for n in nodes):
+            continue
+        if len(nodes) + (1 if name in params else 0) < 2:
+            continue
+        top = {}
+        ok = True
+        for n in nodes:
+            k = next((i for i, st in enumerate(fn.body) if isinstance(st, ast.Assign) and any(n is x for t in st.targets for x in ast.walk(t))), None)
+            if k is None or k in top:
+                ok = False
+                break
+            top[k] = n
+        if not ok or any(isinstance(n, (ast.Global, ast.Nonlocal)) and name in n.names for n in ast.walk(fn)):
+            continue
+        if any(isinstance(n, ast.ExceptHandler) and n.name == name for n in ast.walk(fn)):
+            continue
+        version = 0
+        current = name
+
+        def rename_loads(node: ast.AST, to: str, skip: ast.AST = None) -> None:
+            for x in ast.walk(node):
+                if isinstance(x, ast.Name) and x.id == name and x is not skip and isinstance(x.ctx, ast.Load):
+                    x.id = to
+
+        for k, st in enumerate(fn.body):
+            if current != name:
+                rename_loads(st, current)
+            if k in top:
+                if version > 0 or name in params:
+                    current = f'{name}__v{version + 1}'
+                    top[k].id = current
+                version += 1
+
+
+def split_arm_variables(fn: ast.AST) -> None:
+    """A name that occurs nowhere but inside the two arms of one if/else (not in a loop), bound in both, is two variables:
+    an execution takes one arm only, so nothing flows between the occurrences of one arm and those of the other."""
+    counter = 0
+    parents = {}
+    for n in ast.walk(fn):
+        for c in ast.iter_child_nodes(n):
+            parents[id(c)] = n
+    params = _params(fn)
+    for st in [n for n in ast.walk(fn) if isinstance(n, ast.If) and n.orelse]:
+        cur = st
+        in_loop = False
+        while id(cur) in parents:
+            cur = parents[id(cur)]
+            if isinstance(cur, (ast.For, ast.AsyncFor, ast.While)):
+                in_loop = True
+            if isinstance(cur, FUNC + (ast.Lambda,)) and cur is not fn:
+                in_loop = True  # keep to the function's own scope
+        if in_loop:
+            continue
+
+        def stored(arm: list) -> set:
+            return {x.id for s_ in arm for x in ast.walk(s_) if isinstance(x, ast.Name) and isinstance(x.ctx, ast.Store)}
+
+        for name in sorted(stored(st.body) & stored(st.orelse)):
+            if name in params or name in _names(st.test):
+                continue
+            inside = {id(x) for arm in (st.body, st.orelse) for s_ in arm for x in ast.walk(s_)}
+            occurrences = [x for x in ast.walk(fn) if (isinstance(x, ast.Name) and x.id == name) or (isinstance(x, ast.ExceptHandler) and x.name == name) or (isinstance(x, (ast.Global, ast.Nonlocal)) and name in x.names) or (isinstance(x, ast.arg) and x.arg == name)]
+            if any(id(x) not in inside for x in occurrences) or any(not isinstance(x, ast.Name) for x in occurrences):
+                continue
+            for arm, tag in ((st.body, 'a'), (st.orelse, 'b')):
+                counter += 1
+                for s_ in arm:
+                    for x in ast.walk(s_):
+                        if isinstance(x, ast.Name) and x.id == name:
+                            x.id = f'{name}__{tag}{counter}'
 
 
 def drop_tail_returns(fn: ast.AST) -> None:
@@ -1020,7 +1503,17 @@ class SignatureIndex:
                 elif isinstance(n, ast.Call) and isinstance(n.func, ast.Name) and n.func.id in ('setattr', 'delattr') and len(n.args) >= 2:
                     if isinstance(n.args[1], ast.Constant) and isinstance(n.args[1].value, str):
                         self.rebound_attrs.add(n.args[1].value)
+        # attributes holding a mapping whose items are somewhere replaced / removed (``x.A[k] = v``, ``del x.A[k]``, ``x.A.pop()``)
+        self.item_mutated_attrs: set = set()
+        mutators = {'pop', 'popitem', 'clear', 'update', 'setdefault', '__setitem__', '__delitem__', 'insert', 'remove', 'append', 'extend', 'sort', 'reverse'}
+        for mod in modules_list:
+            for n in ast.walk(mod.tree):
+                if isinstance(n, ast.Subscript) and isinstance(n.ctx, (ast.Store, ast.Del)) and isinstance(n.value, ast.Attribute):
+                    self.item_mutated_attrs.add(n.value.attr)
+                elif isinstance(n, ast.Call) and isinstance(n.func, ast.Attribute) and n.func.attr in mutators and isinstance(n.func.value, ast.Attribute):
+                    self.item_mutated_attrs.add(n.func.value.attr)
         self.properties: set = set()
+        self.effectful_properties: set = set()
         for mod in modules_list:
             for qual, node in mod.defs.items():
                 if isinstance(node, FUNC) and any((isinstance(d, ast.Name) and d.id in ('property', 'cached_property')) or (isinstance(d, ast.Attribute) and d.attr in ('cached_property', 'getter')) for d in node.decorator_list):
@@ -1029,6 +1522,15 @@ class SignatureIndex:
                     if len(body) == 1 and isinstance(body[0], ast.Return) and isinstance(body[0].value, ast.Attribute) and isinstance(body[0].value.value, ast.Name) and body[0].value.value.id == 'self' and body[0].value.attr not in self.rebound_attrs:
                         continue
                     self.properties.add(node.name)
+                    # ... and one that may refuse (raise) or keeps state (stores an attribute / item) is code whose position matters
+                    if any(isinstance(x, (ast.Raise, ast.Yield, ast.YieldFrom, ast.Await)) or (isinstance(x, (ast.Attribute, ast.Subscript)) and isinstance(x.ctx, (ast.Store, ast.Del))) for st in body for x in ast.walk(st)):
+                        self.effectful_properties.add(node.name)
+
+    def frozen_item(self, e: ast.AST) -> bool:
+        """``name.a.M[k]``: a never re-bound mapping attribute none of whose items is ever replaced or removed anywhere in the
+        program, subscripted by a plain name: the same object at every evaluation (a defaultdict creates it on first access,
+        which is the first evaluation either way)."""
+        return isinstance(e, ast.Subscript) and isinstance(e.slice, (ast.Name, ast.Constant)) and isinstance(e.value, ast.Attribute) and e.value.attr not in self.item_mutated_attrs and self.frozen_chain(e.value)
 
     def frozen_chain(self, e: ast.AST) -> bool:
         """``name.a.b`` where no attribute of that name is ever re-bound outside constructors and none is a computed
@@ -1057,13 +1559,24 @@ class SignatureIndex:
             bn = b.attr if isinstance(b, ast.Attribute) else (b.id if isinstance(b, ast.Name) else None)
             if bn == 'NamedTuple':
                 return [st.target.id for st in cls.body if isinstance(st, ast.AnnAssign) and isinstance(st.target, ast.Name)]
-        if depth < 3:
-            for b in cls.bases:
-                bn = b.attr if isinstance(b, ast.Attribute) else (b.id if isinstance(b, ast.Name) else None)
-                cands = classes.get(bn, [])
-                if len(cands) == 1:
-                    return self._ctor(cands[0], classes, depth + 1)
-        return None
+        plain = {'object', 'ABC', 'Generic', 'Protocol', 'Hashable', 'Sized'}
+        unknown = False
+        for b in cls.bases:
+            if isinstance(b, ast.Subscript):
+                b = b.value
+            bn = b.attr if isinstance(b, ast.Attribute) else (b.id if isinstance(b, ast.Name) else None)
+            if bn in plain:
+                continue
+            cands = classes.get(bn, [])
+            if len(cands) == 1 and depth < 4:
+                got = self._ctor(cands[0], classes, depth + 1)
+                if got is None:
+                    unknown = True
+                elif got:
+                    return got
+            else:
+                unknown = True
+        return None if unknown else []
 
     def lookup(self, name: str) -> typing.Optional[list]:
         cands = self.by_name.get(name)
@@ -1092,6 +1605,11 @@ def positional_arguments(fn: ast.AST, sigs: typing.Optional[SignatureIndex]) -> 
         cands = [c for c in cands if c is None or (used <= set(c) and len(c) >= len(n.args) + len(used))]
         if not cands or any(c is None for c in cands):
             continue
+        if all(k.arg is not None for k in n.keywords) and not any(_has_call(a) or any(_has_effect(x) for x in ast.walk(a)) for a in n.args) and not any(_has_call(k.value) or any(_has_effect(x) for x in ast.walk(k.value)) for k in n.keywords):
+            # effect-free arguments: the order keywords are written in is immaterial
+            order = {name: i for i, name in enumerate(cands[0])}
+            if all(all(c.index(k.arg) == order[k.arg] for k in n.keywords) for c in cands):
+                n.keywords.sort(key=lambda k: order[k.arg])
         while n.keywords and n.keywords[0].arg is not None:
             k = len(n.args)
             kw = n.keywords[0]
@@ -1103,6 +1621,8 @@ def positional_arguments(fn: ast.AST, sigs: typing.Optional[SignatureIndex]) -> 
 
 
 def normal_form(fn: ast.AST, sigs: typing.Optional[SignatureIndex] = None) -> ast.AST:
+    global _ACTIVE_SIGS
+    _ACTIVE_SIGS = sigs
     node = ast.parse(ast.unparse(fn)).body[0]  # a private copy without parent links
     strip_meta(node)
     positional_arguments(node, sigs)
@@ -1112,11 +1632,17 @@ def normal_form(fn: ast.AST, sigs: typing.Optional[SignatureIndex] = None) -> as
         inline_nested_helpers(node)
         strip_meta(node)
         canonical_tests(node)
+        boolean_algebra(node)
         loops_to_comprehensions(node)
+        unfold_for_else(node)
+        unfold_generator_loops(node)
         sink_returns(node)
         flatten_conditionals(node)
         drop_tail_continues(node)
         split_rebound_parameters(node)
+        split_versions(node)
+        split_arm_variables(node)
+        sort_independent_assignments(node)
         guard = 0
         while inline_temporaries(node, sigs=sigs) and guard < 200:
             guard += 1
